@@ -327,6 +327,7 @@ fn observe(x: &Xot, o: &Obs, rng: &mut Rng, enumerate_sink: bool, stats: &mut St
         let own: Vec<String> = sub.ns.iter().filter_map(|n| if let Kind::Ns(p, _) = &n.kind { Some(p.clone()) } else { None }).collect();
         let mut in_top_tag = false;
         let mut own_seen = 0usize;
+        let mut announced: Vec<(String, String)> = vec![];
         for e in &got {
             match e {
                 Ev::Open(n, _) if *n == o.node => {
@@ -343,6 +344,7 @@ fn observe(x: &Xot, o: &Obs, rng: &mut Rng, enumerate_sink: bool, stats: &mut St
                         return Err(v("events-differ", format!("outputs(): top element announces {}={} which is not in scope", p, u)));
                     }
                     stats.inc("probe/c16_inherited_prefix_events");
+                    announced.push((p.clone(), u.clone()));
                 }
                 Ev::Prefix(..) if in_top_tag => {
                     own_seen += 1;
@@ -350,6 +352,18 @@ fn observe(x: &Xot, o: &Obs, rng: &mut Rng, enumerate_sink: bool, stats: &mut St
                 }
                 _ => got_f.push(e.clone()),
             }
+        }
+        // ... and all of them: every inherited binding that the element does not redeclare
+        // (the undeclared default namespace is no binding)
+        let mut expected: Vec<(String, String)> =
+            scope.iter().filter(|(p, u)| !own.contains(p) && !(p.is_empty() && u.is_empty())).cloned().collect();
+        expected.sort();
+        announced.sort();
+        if announced != expected {
+            return Err(v(
+                "events-differ",
+                format!("outputs(): the top element announces the inherited bindings {:?}, in scope are {:?}", announced, expected),
+            ));
         }
     } else {
         got_f = got.clone();
